@@ -571,4 +571,24 @@ theorem cost_BILD_R (op : BitVec 16) (st st' : Cpu) (c : BitVec 8) (hp : Spec.Fo
   rw [Spec.pat_BILD_R] at hp; simp only [Bool.and_eq_true, beq_iff_eq] at hp
   cost_tac
 
+/-! SHAL.B/W/L: the V flag of these handlers is a known finding (C03-SHAL-V); their charge is the manual's all the same -/
+
+theorem cost_SHAL_B (op : BitVec 16) (st st' : Cpu) (c : BitVec 8) (hp : Spec.Form.pat .SHAL_B op 0 0 0 0 = true)
+    (h : shift .shal .B op st = .ok c st') : ChargedI 1 st c ∧ Spec.Form.mix .SHAL_B = { i := 1 } := by
+  refine ⟨?_, rfl⟩
+  rw [Spec.pat_SHAL_B] at hp; simp only [Bool.and_eq_true, beq_iff_eq] at hp
+  cost_tac
+
+theorem cost_SHAL_W (op : BitVec 16) (st st' : Cpu) (c : BitVec 8) (hp : Spec.Form.pat .SHAL_W op 0 0 0 0 = true)
+    (h : shift .shal .W op st = .ok c st') : ChargedI 1 st c ∧ Spec.Form.mix .SHAL_W = { i := 1 } := by
+  refine ⟨?_, rfl⟩
+  rw [Spec.pat_SHAL_W] at hp; simp only [Bool.and_eq_true, beq_iff_eq] at hp
+  cost_tac
+
+theorem cost_SHAL_L (op : BitVec 16) (st st' : Cpu) (c : BitVec 8) (hp : Spec.Form.pat .SHAL_L op 0 0 0 0 = true)
+    (h : shift .shal .L op st = .ok c st') : ChargedI 1 st c ∧ Spec.Form.mix .SHAL_L = { i := 1 } := by
+  refine ⟨?_, rfl⟩
+  rw [Spec.pat_SHAL_L] at hp; simp only [Bool.and_eq_true, beq_iff_eq] at hp
+  cost_tac
+
 end H8.Props.C20R
